@@ -44,7 +44,7 @@ EncPolicySubTlvs(p) ==
        bsid == IF p.bsid = <<>> THEN <<(IF new THEN 13 ELSE 7), 2, 0, 0>> ELSE <<(IF new THEN 13 ELSE 7), 6, 0, 0>> \o Bsid4(p.bsid[1])
        enlp == IF p.enlp = <<>> THEN <<>> ELSE <<14, 3, 0, 0, p.enlp[1]>>
        prio == IF p.prio = <<>> THEN <<>> ELSE <<15, 2, p.prio[1], 0>>
-       name == IF p.name = <<>> THEN <<>> ELSE <<129>> \o U16(1 + Len(p.name)) \o <<0>> \o p.name
+       name == IF p.name = <<>> THEN <<>> ELSE <<129>> \o U16(1 + Len(p.name)) \o <<0>> \o [i \in 1..Len(p.name) |-> p.name[i] % 256]
        rep == IF p.rep = <<>> THEN <<>> ELSE <<6, 6 + Len(p.rep[3])>> \o U32hl(p.rep[1]) \o U16(p.rep[2]) \o p.rep[3]
    IN pref \o bsid \o enlp \o prio \o name \o rep \o Flatten([i \in 1..Len(p.lists) |-> EncSegList(p.lists[i])])
 EncTunnelEncaps(p) == LET v == EncPolicySubTlvs(p) IN U16(15) \o U16(Len(v)) \o v
@@ -117,6 +117,9 @@ PolicyPool ==
    \cup {Pol(e, pf, bs, <<>>, <<>>, <<>>, <<>>, OneList) : e \in {"old", "new"}, pf \in {<<>>, <<0, 100>>, <<65535, 65535>>}, bs \in {<<>>, <<0>>, <<25102>>, <<1048575>>}}
    \cup {Pol("new", <<0, 100>>, <<25102>>, en, pr, <<>>, <<>>, OneList) : en \in {<<>>, <<1>>, <<4>>}, pr \in {<<>>, <<0>>, <<255>>}}
    \cup {Pol("new", <<0, 100>>, <<25102>>, <<>>, <<>>, nm, <<>>, OneList) : nm \in {Name(1), Name(20), Name(254), Name(255), Name(300)}}
+   \* names given as code points that are not ASCII (RFC 9256 2.4.6: printable ASCII): construction fails or stays valid
+   \cup {Pol("new", <<0, 100>>, <<25102>>, <<>>, <<>>, nm, rp, OneList) : nm \in {<<99, 97, 102, 233>>, <<20013, 25991>>, <<112, 128512>>},
+                                                                             rp \in {<<>>, <<<<0, 65001>>, 1, <<10, 0, 0, 9>>>>}}
    \cup {Pol("new", <<0, 100>>, <<25102>>, <<>>, <<>>, <<>>, rp, OneList) : rp \in {<<<<0, 65001>>, 1, <<10, 0, 0, 9>>>>, <<<<1, 4464>>, 2, <<32, 1, 13, 184, 0, 0, 0, 0, 0, 0, 0, 0, 0, 0, 0, 9>>>>}}
    \cup {Pol("new", <<0, 100>>, <<25102>>, <<1>>, <<7>>, Name(30), <<<<0, 65001>>, 1, <<10, 0, 0, 9>>>>, <<SegList(<<0, 1>>, ManySegs(35))>>)}
 PmsiPool == {[leaf |-> lf, ttype |-> t, label |-> l, id |-> id] : lf \in {0, 1}, t \in 0..7, l \in {0, 1234, 1048575},
